@@ -227,8 +227,11 @@ def run(ctx):
     from .C06 import r6_4
     r6_4(ctx)
     # "every non-automatic unfinished task has an eligible worker" is C04's notion of eligible: the allocator must test exactly that
-    from .C04 import r4_1
+    from .C04 import r4_1, r4_5
     r4_1(ctx)
+    # ... and judged by the team / workplace it belongs to now: the membership ID the allocator reads is set by every method that
+    # adds a member (a worker that keeps a former team's ID is never found eligible, and its task waits until max_time)
+    r4_5(ctx)
     # ... and that worker is offered to the task: the allocator looks at every READY and WORKING task, whatever else is true of it
     # (a READY task that is filtered out never starts, so the project runs into max_time)
     from .C06 import r6_2
